@@ -561,7 +561,7 @@ fn path_functions(totals: &mut Totals) {
     // hidden, multi-byte letters, CJK, an emoji, a combining mark), relative and absolute: the base
     // name is the last element, the directory name everything in front of it, joining gives it back
     // ... and names that read as false, as true, as condition syntax or as commands to the script that implements join_path
-    let names = ["a", "b.txt", "s p", "x.y.z", ".hidden", "dír", "ü", "日本", "語 ü.bin", "😀d", "e\u{301}", "Ω-1", "0", "no", "false", "False", "NO", "true", "set", "echo", "not", "and", "or", "00", "1", "-r", "--flag", "%", "$x", "a=b", "#1"];
+    let names = ["a", "b.txt", "s p", "x.y.z", ".hidden", "dír", "ü", "日本", "語 ü.bin", "😀d", "e\u{301}", "Ω-1", "0", "no", "false", "False", "NO", "true", "set", "echo", "not", "and", "or", "00", "1", "-r", "--flag", "%", "$x", "a=b", "#1", "\u{feff}bom", "z\u{200b}w", "a\u{a0}b", "\u{202e}rtl", "tab\tname", "-i", "--ignore-case"];
     let mut owned: Vec<(String, Vec<String>, Option<String>)> = vec![];
     for a in names {
         for b in names {
